@@ -81,10 +81,10 @@ type obj struct {
 	Payload string `json:"payload"`
 }
 
-func (o *obj) ObjectID() string                 { return o.ID }
-func (o *obj) MarshalBinary() ([]byte, error)   { return json.Marshal(o) }
-func (o *obj) UnmarshalBinary(d []byte) error   { return json.Unmarshal(d, o) }
-func newObj() storage.BinaryObject              { return new(obj) }
+func (o *obj) ObjectID() string               { return o.ID }
+func (o *obj) MarshalBinary() ([]byte, error) { return json.Marshal(o) }
+func (o *obj) UnmarshalBinary(d []byte) error { return json.Unmarshal(d, o) }
+func newObj() storage.BinaryObject            { return new(obj) }
 func groupValue(o storage.BinaryObject) (string, error) {
 	oo, ok := o.(*obj)
 	if !ok {
@@ -100,11 +100,11 @@ var patterns = []string{"", "*", "a*", "?b", "[ab]*", "a?b", "*b", "zzz", "[0-9]
 // ---- fault-injecting storage.Interface ----------------------------------------------------------
 
 type faultStore struct {
-	inner  *storage.Bolt
-	failAt int32 // fail the n-th write (1-based) of the next Update; 0 = never
+	inner      *storage.Bolt
+	failAt     int32 // fail the n-th write (1-based) of the next Update; 0 = never
 	failCommit bool
-	writes int32 // writes performed by the last Update
-	commits int64
+	writes     int32 // writes performed by the last Update
+	commits    int64
 }
 
 func (f *faultStore) View(fn func(storage.ReadOnlyTx) error) error { return f.inner.View(fn) }
